@@ -1,12 +1,180 @@
 (* C03 - the exact persistence landscape equals the k-th-largest-tent definition.
    Only statements here; every proof is `exact <lemma of Proofs/Sweep*.v>`.
-   Model: Model/SweepM.v.  sweep true = pinned code (repeated-bar shortcut), sweep false = shortcut-free. *)
-From Coq Require Import QArith Qminmax List Bool Arith.
-From Persim Require Import Lib.Kth Lib.PL Model.SweepM Proofs.SweepGlue.
+   Model: Model/SweepM.v, a line-by-line model over Q of PersLandscapeExact.compute_landscape.
+     sweep true  = the pinned code, with the repeated-bar shortcut (exact.py 285-304)   [Legacy]
+     sweep false = the same sweep without the shortcut                                   [intended]
+     exact_landscape shortcut guard_empty dgms hom_deg = the glue (dgms[hom_deg], one trailing
+       infinite bar dropped) around it.
+   Spec: Lib/PL.v (tent, land = k-th largest tent, pl_eval = linear interpolation, 0 outside),
+         Spec/LandscapeS.v (landscape_ok, positive_bars, the bar order ssorted). *)
+From Coq Require Import Reals QArith Qreals Qminmax List Bool Arith Permutation.
+From Persim Require Import Lib.Kth Lib.PL Spec.LandscapeS Spec.LandscapeRealS Model.SweepM Proofs.SweepGlue Proofs.SweepP Proofs.PLSpec
+  Proofs.KthReal Proofs.SweepReal Corr.SweepCorr Proofs.SweepCorrP.
 Import ListNotations.
 Open Scope Q_scope.
 
-(* ---- the faithful model of the pinned code is refuted ---- *)
+(* ================= the reading of critical_pairs ================= *)
+(* pl_eval is linear interpolation of the breakpoints and 0 outside them, for every breakpoint list with
+   strictly increasing abscissae (which sweep_correct proves every depth has) *)
+Theorem pl_eval_is_linear_interpolation : forall pre x0 y0 x1 y1 post t,
+  incr (pre ++ (x0, y0) :: (x1, y1) :: post) -> x0 <= t -> t <= x1 ->
+  pl_eval (pre ++ (x0, y0) :: (x1, y1) :: post) t == y0 + (y1 - y0) * (t - x0) / (x1 - x0).
+Proof. exact pl_eval_interp. Qed.
+Print Assumptions pl_eval_is_linear_interpolation.
+
+Theorem pl_eval_zero_outside : forall l t, incr l ->
+  ((forall p, In p l -> t < fst p) \/ (forall p, In p l -> fst p < t)) -> pl_eval l t == 0.
+Proof. exact pl_eval_outside. Qed.
+Print Assumptions pl_eval_zero_outside.
+
+(* ================= the intended variant is correct, for every diagram ================= *)
+
+(* T1.  With the shortcut off the sweep terminates (Some) on every finite list of positive-length bars,
+   in any input order, and its depth k, interpolated linearly and 0 outside its breakpoints, equals the
+   k-th largest tent at EVERY rational t and EVERY k >= 1 (k beyond the last depth reads the default []
+   and is 0); the abscissae of every depth are strictly increasing; there are at most as many depths
+   as bars. *)
+Theorem sweep_correct : forall bars : list bar, (forall a, In a bars -> fst a < snd a) ->
+  exists L, sweep false bars = Some L /\
+    (forall (k : nat) (t : Q), (1 <= k)%nat -> pl_eval (nth (k - 1) L []) t == land bars k t) /\
+    (forall l, In l L -> incr l) /\
+    (length L <= length bars)%nat.
+Proof. exact sweep_correct_full. Qed.
+Print Assumptions sweep_correct.
+
+(* every depth beyond the last one returned is identically zero *)
+Theorem sweep_depths_beyond_zero : forall bars L, (forall a, In a bars -> fst a < snd a) ->
+  sweep false bars = Some L -> forall (k : nat) (t : Q), (length L < k)%nat -> land bars k t == 0.
+Proof. exact land_beyond. Qed.
+Print Assumptions sweep_depths_beyond_zero.
+
+(* T1 at EVERY REAL t.  The same critical pairs, read as a piecewise-linear function of a real abscissa
+   (pl_evalR, Spec/LandscapeRealS.v), satisfy Bubenik's rank-function definition of the landscape:
+   for every k >= 1, every real t and every real v >= 0,
+        v < lambda_k(t)   <->   at least k bars have tent value > v at t,
+   and lambda_k(t) >= 0.  These two facts determine the value (landscape_value_is_determined), and on
+   rational t the real reading is the rational one (real_reading_extends_rational), where by kth_ex the
+   characterisation is "k-th largest tent". *)
+Theorem sweep_correct_every_real_t : forall bars : list bar, (forall a, In a bars -> fst a < snd a) ->
+  exists L, sweep false bars = Some L /\
+    forall (k : nat) (t : R), (1 <= k)%nat ->
+      (0 <= pl_evalR (map rp (nth (k - 1) L [])) t)%R /\
+      forall v : R, (0 <= v)%R ->
+        ((v < pl_evalR (map rp (nth (k - 1) L [])) t)%R <->
+         (k <= exR (map (fun a => tentR (Q2R (fst a)) (Q2R (snd a)) t) bars) v)%nat).
+Proof. exact sweep_correct_at_reals. Qed.
+Print Assumptions sweep_correct_every_real_t.
+
+(* ... and therefore, verbatim as in the property: at every real t and every depth k >= 1 the interpolated
+   critical pairs equal the k-th largest value of max(0, min(t-b, d-t)) over the bars, counted with
+   multiplicity (kthR = nth (k-1) of the descending sort, 0 beyond the number of bars). *)
+Theorem sweep_is_kth_largest_tent_at_every_real_t : forall bars : list bar, (forall a, In a bars -> fst a < snd a) ->
+  exists L, sweep false bars = Some L /\
+    forall (k : nat) (t : R), (1 <= k)%nat ->
+      pl_evalR (map rp (nth (k - 1) L [])) t
+      = kthR (map (fun a => Rmax 0 (Rmin (t - Q2R (fst a)) (Q2R (snd a) - t))) bars) k.
+Proof. exact sweep_kth_at_reals. Qed.
+Print Assumptions sweep_is_kth_largest_tent_at_every_real_t.
+
+Theorem landscape_value_is_determined : forall bars L L' k (t : R),
+  is_landscape_value_at bars L k t -> is_landscape_value_at bars L' k t ->
+  pl_evalR (map rp (nth (k - 1) L [])) t = pl_evalR (map rp (nth (k - 1) L' [])) t.
+Proof. exact landscape_value_unique. Qed.
+Print Assumptions landscape_value_is_determined.
+
+Theorem real_reading_extends_rational : forall (l : list pt) (t : Q),
+  pl_evalR (map rp l) (Q2R t) = Q2R (pl_eval l t).
+Proof. exact plR_rational. Qed.
+Print Assumptions real_reading_extends_rational.
+
+(* T1.  One pass of the outer loop (shortcut off) on a sorted list (b,d)::A0 of positive-length bars:
+   it terminates with a depth L1 and a residual list A' such that A' is sorted, positive and strictly
+   shorter; L1 has strictly increasing abscissae; L1 dominates every tent of the input and of A'; and the
+   rank function is preserved at every t:  #{tents of the input > v} = #{L1(t), tents of A' > v}. *)
+Theorem pass_spec : forall b d A0, ssorted ((b, d) :: A0) -> positive_bars ((b, d) :: A0) ->
+  exists L1 A',
+    inner (S (length A0)) [(b, 0); (half (b + d), half (d - b))] b d A0 = Some (L1, A') /\
+    ssorted A' /\ positive_bars A' /\ (length A' < length ((b, d) :: A0))%nat /\
+    incr L1 /\
+    (forall t, 0 <= pl_eval L1 t) /\
+    (forall t x, In x ((b, d) :: A0) \/ In x A' -> tent x t <= pl_eval L1 t) /\
+    (forall t v, 0 <= v -> ex (map (fun a => tent a t) ((b, d) :: A0)) v
+                           = ex (pl_eval L1 t :: map (fun a => tent a t) A') v).
+Proof. exact pass_sem. Qed.
+Print Assumptions pass_spec.
+
+(* the public entry point: hom_deg selects, one trailing infinite bar is dropped, then sweep_correct *)
+Theorem exact_landscape_correct : forall dgms h dg bars, nth_error dgms h = Some dg ->
+  finite_bars (strip_trailing_inf dg) = Some bars -> positive_bars bars ->
+  exists L, exact_landscape false true dgms h = Ok L /\ landscape_ok bars L /\ (length L <= length bars)%nat.
+Proof. exact exact_landscape_sem. Qed.
+Print Assumptions exact_landscape_correct.
+
+Theorem exact_landscape_correct_every_real_t : forall dgms h dg bars, nth_error dgms h = Some dg ->
+  finite_bars (strip_trailing_inf dg) = Some bars -> positive_bars bars ->
+  exists L, exact_landscape false true dgms h = Ok L /\
+    forall (k : nat) (t : R), (1 <= k)%nat ->
+      pl_evalR (map rp (nth (k - 1) L [])) t
+      = kthR (map (fun a => Rmax 0 (Rmin (t - Q2R (fst a)) (Q2R (snd a) - t))) bars) k.
+Proof. exact exact_landscape_kth_at_reals. Qed.
+Print Assumptions exact_landscape_correct_every_real_t.
+
+(* the result does not depend on the order of the input bars (as functions of t) *)
+Theorem sweep_order_independent : forall bars bars' L L', positive_bars bars -> Permutation bars bars' ->
+  sweep false bars = Some L -> sweep false bars' = Some L' ->
+  forall (k : nat) (t : Q), (1 <= k)%nat -> pl_eval (nth (k - 1) L []) t == pl_eval (nth (k - 1) L' []) t.
+Proof. exact sweep_order_free. Qed.
+Print Assumptions sweep_order_independent.
+
+(* T1.  The pinned code equals the shortcut-free sweep on every input on which the shortcut never fires
+   (shortcut_fires is computable and is what the guarded source hook reports), hence is correct there. *)
+Theorem sweep_shortcut_agrees : forall bars, shortcut_fires bars = false -> sweep true bars = sweep false bars.
+Proof. exact sweep_nofire. Qed.
+Print Assumptions sweep_shortcut_agrees.
+
+Theorem sweep_legacy_correct_when_shortcut_silent : forall bars, positive_bars bars -> shortcut_fires bars = false ->
+  exists L, sweep true bars = Some L /\ landscape_ok bars L.
+Proof. exact legacy_ok_when_silent. Qed.
+Print Assumptions sweep_legacy_correct_when_shortcut_silent.
+
+Theorem sweep_legacy_correct_when_shortcut_silent_every_real_t : forall bars, positive_bars bars ->
+  shortcut_fires bars = false ->
+  exists L, sweep true bars = Some L /\
+    forall (k : nat) (t : R), (1 <= k)%nat ->
+      pl_evalR (map rp (nth (k - 1) L [])) t
+      = kthR (map (fun a => Rmax 0 (Rmin (t - Q2R (fst a)) (Q2R (snd a) - t))) bars) k.
+Proof. exact legacy_kth_at_reals_when_silent. Qed.
+Print Assumptions sweep_legacy_correct_when_shortcut_silent_every_real_t.
+
+(* the Legacy sweep terminates too, so the fuel-exhaustion outcome ErrFuel is never returned by any variant *)
+Theorem sweep_legacy_total : forall bars, positive_bars bars -> exists L, sweep true bars = Some L.
+Proof. exact sweep_legacy_runs. Qed.
+Print Assumptions sweep_legacy_total.
+
+Theorem exact_landscape_never_out_of_fuel : forall s g dgms h dg bars, nth_error dgms h = Some dg ->
+  finite_bars (strip_trailing_inf dg) = Some bars -> positive_bars bars -> exact_landscape s g dgms h <> ErrFuel.
+Proof. exact no_fuel_error. Qed.
+Print Assumptions exact_landscape_never_out_of_fuel.
+
+(* the trace recorded by the guarded source hook (one entry per pass with duplicate > 0) is empty exactly
+   when shortcut_fires = false: the hook observes the hypothesis of sweep_shortcut_agrees *)
+Theorem hook_trace_empty_iff_shortcut_silent : forall bars, positive_bars bars ->
+  (shortcut_fires bars = false <-> shortcut_trace bars = []).
+Proof. exact fires_iff_trace. Qed.
+Print Assumptions hook_trace_empty_iff_shortcut_silent.
+
+(* ================= the tie is a certificate ================= *)
+(* Whenever the fixed runner of the generated case files (Corr/SweepCorr.v: check_case) answers VAgree for an
+   implementation output L, that output satisfies the definition at every t and k: an agreeing case is a proof
+   about the implementation's actual critical_pairs on that input, not only a comparison. *)
+Theorem agree_verdict_certifies_output : forall dgms h dg bars L tr, nth_error dgms h = Some dg ->
+  finite_bars (strip_trailing_inf dg) = Some bars -> positive_bars bars ->
+  check_case dgms h (Ok L) tr = VAgree ->
+  forall (k : nat) (t : Q), (1 <= k)%nat -> pl_eval (nth (k - 1) L []) t == land bars k t.
+Proof. exact agree_certifies. Qed.
+Print Assumptions agree_verdict_certifies_output.
+
+(* ================= the faithful model of the pinned code is refuted ================= *)
 
 (* witness [(1,5);(1,5);(3,6)], k = 2, t = 11/2: definition 0, code 1/2 *)
 Theorem sweep_legacy_refuted :
@@ -29,7 +197,7 @@ Theorem empty_diagram_legacy_refuted :
 Proof. exact legacy_empty_refuted. Qed.
 Print Assumptions empty_diagram_legacy_refuted.
 
-(* ---- glue: hom_deg selects the diagram; one trailing infinite bar is dropped ---- *)
+(* ================= glue ================= *)
 Theorem hom_deg_selects : forall s g dgms h dg, nth_error dgms h = Some dg ->
   exact_landscape s g dgms h = exact_landscape s g [dg] 0.
 Proof. exact glue_select. Qed.
@@ -42,13 +210,36 @@ Print Assumptions hom_deg_out_of_range.
 Theorem trailing_inf_removed : forall s g dg bars b, finite_bars dg = Some bars ->
   exact_landscape s g [dg ++ [(b, None)]] 0 = run_sweep s bars /\
   (dg <> [] -> exact_landscape s g [dg] 0 = run_sweep s bars).
-Proof. intros. split. apply glue_trailing_inf; assumption. apply glue_finite; assumption. Qed.
+Proof. exact glue_trailing_both. Qed.
 Print Assumptions trailing_inf_removed.
 
 Theorem empty_diagram_no_depths : forall s dgms h, nth_error dgms h = Some [] -> exact_landscape s true dgms h = Ok [].
 Proof. exact glue_empty. Qed.
 Print Assumptions empty_diagram_no_depths.
 
+(* ================= non-vacuity ================= *)
+(* the hypotheses of sweep_correct / pass_spec are satisfiable, with interacting bars *)
+Example sweep_correct_nonvacuous :
+  (forall a, In a [(1, 5); (2, 8); (3, 4); (5, 9); (6, 7)] -> fst a < snd a) /\
+  option_map (@length _) (sweep false [(1, 5); (2, 8); (3, 4); (5, 9); (6, 7)]) = Some 3%nat.
+Proof. split. intros a H; simpl in H; repeat (destruct H as [H|H]; [subst a; reflexivity|]); contradiction.
+  vm_compute. reflexivity. Qed.
+Example pass_spec_nonvacuous : ssorted [(1, 5); (2, 8); (3, 4)] /\ positive_bars [(1, 5); (2, 8); (3, 4)].
+Proof. split.
+  - exact ssorted_example.
+  - intros a H; simpl in H; repeat (destruct H as [H|H]; [subst a; reflexivity|]); contradiction. Qed.
+(* the shortcut-silent predicate is satisfiable and not trivially true *)
+Example shortcut_silent_nonvacuous :
+  shortcut_fires [(1, 5); (2, 8); (3, 4); (5, 9); (6, 7)] = false /\ shortcut_fires [(6, 11); (5, 7); (7, 10); (6, 7)] = true.
+Proof. split; vm_compute; reflexivity. Qed.
+(* on the refutation witness the shortcut-free sweep gives the definition's value 0 at k = 2, t = 11/2 *)
+Example intended_on_witness :
+  match sweep false [(1, 5); (1, 5); (3, 6)] with Some L => Qeq_bool (pl_eval (nth 1 L []) (11 # 2)) 0 | None => false end = true.
+Proof. vm_compute. reflexivity. Qed.
+Example agree_verdict_nonvacuous :
+  check_case [[(0, Some 3); (1, Some 4)]] 0
+    (Ok [[(0, 0); (3 # 2, 3 # 2); (2, 1); (5 # 2, 3 # 2); (4, 0)]; [(1, 0); (2, 1); (3, 0)]]) (Some []) = VAgree.
+Proof. vm_compute. reflexivity. Qed.
 Example glue_nonvacuous :
   exact_landscape false true [[(0, Some 2)]; [(1, Some 3); (0, None)]] 1 = Ok [[(1, 0); (4 # 2, 2 # 2); (3, 0)]].
 Proof. vm_compute. reflexivity. Qed.
